@@ -89,6 +89,9 @@ class ExceptIf(ConclusionSelector):
             if when_true:
                 for conc in self.right._conclusion_:
                     required_vars.update(conc._unique_variables_)
+                # whether the refinement fires is decided for every row of what it refines: its outputs under two
+                # different rows of the left side are different outputs, also when they conclude the same.
+                required_vars.update(self.left._unique_variables_)
             if when_false and not self.left._is_false_:
                 for conc in self.left._conclusion_:
                     required_vars.update(conc._unique_variables_)
